@@ -111,9 +111,9 @@ namespace ip {
 		{
 			try
 			{
-				post(m_io_service, [&, h = std::exchange(m_accept_handler2, nullptr)] () mutable {
+				post(m_io_service, [&ios = m_io_service, h = std::exchange(m_accept_handler2, nullptr)] () mutable {
 					h(boost::system::error_code(error::operation_aborted)
-						, ip::tcp::socket(m_io_service));
+						, ip::tcp::socket(ios));
 				});
 			}
 			catch (std::bad_alloc const&)
@@ -155,9 +155,9 @@ namespace ip {
 		{
 			m_accept_into = nullptr;
 			m_remote_endpoint = nullptr;
-			post(m_io_service, [&, h = std::exchange(m_accept_handler2, nullptr)] () mutable {
+			post(m_io_service, [&ios = m_io_service, h = std::exchange(m_accept_handler2, nullptr)] () mutable {
 				h(boost::system::error_code(error::operation_aborted)
-					, ip::tcp::socket(m_io_service));
+					, ip::tcp::socket(ios));
 			});
 		}
 		m_accept_handler = std::move(h);
@@ -184,9 +184,9 @@ namespace ip {
 		}
 		if (m_accept_handler2)
 		{
-			post(m_io_service, [&, h = std::exchange(m_accept_handler2, nullptr)] () mutable {
+			post(m_io_service, [&ios = m_io_service, h = std::exchange(m_accept_handler2, nullptr)] () mutable {
 				h(boost::system::error_code(error::operation_aborted)
-					, ip::tcp::socket(m_io_service));
+					, ip::tcp::socket(ios));
 			});
 		}
 		m_accept_handler = std::move(h);
@@ -208,9 +208,9 @@ namespace ip {
 		if (m_accept_handler2)
 		{
 			m_accept_into = nullptr;
-			post(m_io_service, [&, h = std::exchange(m_accept_handler2, nullptr)] () mutable {
+			post(m_io_service, [&ios = m_io_service, h = std::exchange(m_accept_handler2, nullptr)] () mutable {
 				h(boost::system::error_code(error::operation_aborted)
-					, ip::tcp::socket(m_io_service));
+					, ip::tcp::socket(ios));
 			});
 		}
 		m_new_socket.emplace(m_io_service);
@@ -247,9 +247,9 @@ namespace ip {
 				{
 					m_accept_into = nullptr;
 					m_remote_endpoint = nullptr;
-					post(m_io_service, [&, h = std::exchange(m_accept_handler2, nullptr)] () mutable {
+					post(m_io_service, [&ios = m_io_service, h = std::exchange(m_accept_handler2, nullptr)] () mutable {
 						h(boost::system::error_code(error::operation_aborted)
-							, ip::tcp::socket(m_io_service));
+							, ip::tcp::socket(ios));
 					});
 				}
 				return;
@@ -295,9 +295,9 @@ namespace ip {
 			{
 				m_accept_into = nullptr;
 				m_remote_endpoint = nullptr;
-				post(m_io_service, [&, h = std::exchange(m_accept_handler2, nullptr)] () mutable {
+				post(m_io_service, [&ios = m_io_service, h = std::exchange(m_accept_handler2, nullptr)] () mutable {
 					h(boost::system::error_code(error::operation_aborted)
-						, ip::tcp::socket(m_io_service));
+						, ip::tcp::socket(ios));
 				});
 			}
 		}
